@@ -36,7 +36,7 @@ def _maxrank(n, k):
     return min(left, right)
 
 
-def h_cache(ctx, n, rho, r0, dr, nswp):
+def h_cache(ctx, n, rho, r0, dr, nswp, with_vld=False):
     """Cached and uncached runs under the same index choices: identical cores
     and sweep count, never more evaluations, dictionary = evaluated pairs."""
     T = ctx.tt('t', n, rho)
@@ -45,9 +45,13 @@ def h_cache(ctx, n, rho, r0, dr, nswp):
     o2 = Oracle(ctx, target=T)
     i1, i2 = {}, {}
     cache = {}
+    kw = {}
+    if with_vld:
+        Iv = np.array(multi_indices(n)[-2:])
+        kw = {'I_vld': Iv, 'y_vld': np.array([ref_get(T, tuple(i)) for i in Iv], dtype=T[0].dtype)}
     with stubs_installed(ctx, 'first'):
-        Ya = teneva.cross(o1, Y0, nswp=nswp, dr_min=dr[0], dr_max=dr[1], info=i1)
-        Yb = teneva.cross(o2, Y0, nswp=nswp, dr_min=dr[0], dr_max=dr[1], info=i2, cache=cache, m_cache_scale=10 ** 6)
+        Ya = teneva.cross(o1, Y0, nswp=nswp, dr_min=dr[0], dr_max=dr[1], info=i1, **kw)
+        Yb = teneva.cross(o2, Y0, nswp=nswp, dr_min=dr[0], dr_max=dr[1], info=i2, cache=cache, m_cache_scale=10 ** 6, **kw)
     ctx.claim('same_cores', len(Ya) == len(Yb) and all(a.shape == b.shape and bool(ctx.all_eq(a, b)) for a, b in zip(Ya, Yb)))
     ctx.claim('same_sweep_count', i1['nswp'] == i2['nswp'])
     ctx.claim('evaluations_never_grow', i2['m'] <= i1['m'])
@@ -108,6 +112,11 @@ def instances(tier):
         ca += [([3, 3], 2, 2, (0, 0), 2), ([2, 2, 2], 2, 1, (1, 1), 2)]
     for n, rho, r0, dr, nswp in ca:
         out.append({'func': 'h_cache', 'params': {'n': n, 'rho': rho, 'r0': r0, 'dr': list(dr), 'nswp': nswp}, 'opts': G})
+    out.append({'func': 'h_cache', 'params': {'n': [2, 2], 'rho': 1, 'r0': 1, 'dr': [0, 0], 'nswp': 1, 'with_vld': True}, 'opts': G})
+    out.append({'func': 'h_cache', 'params': {'n': [2, 3], 'rho': 1, 'r0': 1, 'dr': [0, 0], 'nswp': 2, 'with_vld': True}, 'opts': G})
+    # rank growth by two per sweep on an almost square unfolding (dr_min larger than the free rows)
+    out.append({'func': 'h_exact', 'params': {'n': [3, 3], 'rho': 2, 'r0': 2, 'dr': [2, 2], 'nswp': 1, 'choices': 'first'}, 'opts': G})
+    out.append({'func': 'h_exact', 'params': {'n': [3, 2, 3], 'rho': 2, 'r0': 2, 'dr': [2, 3], 'nswp': 1, 'choices': 'first'}, 'opts': G})
     out.append({'func': 'h_info', 'params': {'n': [2, 2], 'rho': 1}, 'opts': G})
     return out
 
